@@ -43,20 +43,20 @@ import (
 // inside to leave (concurrently, or one a few microseconds after the other).
 
 const (
-	c09Settle  = 200 * time.Millisecond  // per action
-	c09Short   = 50 * time.Millisecond   // after a first timeout in the same history
-	c09Cancel  = 500 * time.Millisecond  // "promptly" for a cancelled waiter (generous)
-	c09Refill  = 1000 * time.Millisecond // final refill probe
+	c09Settle  = 1000 * time.Millisecond // per action (generous: the machine may be heavily loaded)
+	c09Short   = 100 * time.Millisecond  // after a first timeout in the same history
+	c09Cancel  = 2000 * time.Millisecond // "promptly" for a caller whose context is over (generous)
+	c09Refill  = 3000 * time.Millisecond // final refill probe
 	c09Grace   = 2 * time.Millisecond    // after quiescence: catch stragglers (over-admission)
 	c09Final   = 20 * time.Millisecond   // grace of the probe that ends the history
 	c09Workers = 16
 )
 
 type c09Action struct {
-	Op      string `json:"op"`      // start | release | cancel | race | probe
-	Missing bool   `json:"missing"` // start: render a template that does not exist
-	Pick    int    `json:"pick"`    // release / cancel / race: index into the sorted inside / waiting set (mod size)
-	Outcome string `json:"outcome"` // release / race: ok | func_error | panic
+	Op      string `json:"op"`                 // start | release | cancel | race | probe
+	Missing bool   `json:"missing"`            // start: render a template that does not exist
+	Pick    int    `json:"pick"`               // release / cancel / race: index into the sorted inside / waiting set (mod size)
+	Outcome string `json:"outcome"`            // release / race: ok | func_error | panic
 	Ctx     string `json:"ctx,omitempty"`      // start: "" | cancelled | expired | at
 	K       int    `json:"k,omitempty"`        // start, ctx "at": the context ends at its K-th use (K >= 1)
 	Pick2   int    `json:"pick2,omitempty"`    // race: index of the render inside that is told to leave
@@ -83,9 +83,9 @@ type c09Window struct {
 	Missing  bool     `json:"missing"`
 	Outcome  string   `json:"outcome,omitempty"`
 	Ctx      string   `json:"ctx,omitempty"` // start: the kind of context
-	Entered  []int    `json:"entered"`  // entry reports that arrived in this window, in order
-	Ended    []int    `json:"ended"`    // renders whose context was seen to be over for the first time in this window
-	Finished []c09Fin `json:"finished"` // Render calls that returned in this window, in order
+	Entered  []int    `json:"entered"`       // entry reports that arrived in this window, in order
+	Ended    []int    `json:"ended"`         // renders whose context was seen to be over for the first time in this window
+	Finished []c09Fin `json:"finished"`      // Render calls that returned in this window, in order
 	Inside   []int    `json:"inside"`
 	Waiting  []int    `json:"waiting"`
 	Settled  bool     `json:"settled"`  // quiescence was reached before the timeout
